@@ -114,7 +114,11 @@ func Drive(id, tier string, seed uint64, replayFile string) int {
 	}
 	if replayFile == "" {
 		// replays of an earlier run of this property are stale now
-		old, _ := filepath.Glob(filepath.Join(root, "replays", id+"-*.json"))
+		rd := filepath.Join(root, "replays")
+		if d := os.Getenv("VERIF_OUT_DIR"); d != "" {
+			rd = filepath.Join(d, "replays")
+		}
+		old, _ := filepath.Glob(filepath.Join(rd, id+"-*.json"))
 		for _, f := range old {
 			os.Remove(f)
 		}
@@ -450,7 +454,14 @@ func Drive(id, tier string, seed uint64, replayFile string) int {
 			fmt.Printf("KNOWN-FINDING: property=%s %s [%s, %d occurrence(s) this run]\n", id, k.What, k.ID, n)
 		}
 	}
-	os.MkdirAll(filepath.Join(root, "replays"), 0o755)
+	replayDir := filepath.Join(root, "replays")
+	evidenceDir := filepath.Join(root, "evidence")
+	if d := os.Getenv("VERIF_OUT_DIR"); d != "" {
+		// runs against a scratch copy of the repository (mutants) must not overwrite the
+		// evidence and replays of the real tree
+		replayDir, evidenceDir = filepath.Join(d, "replays"), filepath.Join(d, "evidence")
+	}
+	os.MkdirAll(replayDir, 0o755)
 	sort.Strings(order)
 	nviol := 0
 	for i, gk := range order {
@@ -459,7 +470,7 @@ func Drive(id, tier string, seed uint64, replayFile string) int {
 		if i >= 25 {
 			continue
 		}
-		rp := filepath.Join(root, "replays", fmt.Sprintf("%s-%s-%d.json", id, sanitize(g.v.Case.ID), i))
+		rp := filepath.Join(replayDir, fmt.Sprintf("%s-%s-%d.json", id, sanitize(g.v.Case.ID), i))
 		doc := map[string]interface{}{"property": id, "tier": tier, "seed": seed, "case": g.v.Case, "violation": g.v.Violation, "occurrences": g.count}
 		b, _ := json.MarshalIndent(doc, "", " ")
 		os.WriteFile(rp, b, 0o644)
@@ -470,6 +481,18 @@ func Drive(id, tier string, seed uint64, replayFile string) int {
 		}
 	}
 
+	if nviol > 0 {
+		byKind := map[string]int{}
+		for _, gk := range order {
+			byKind[groups[gk].v.Kind]++
+		}
+		var ks []string
+		for k, n := range byKind {
+			ks = append(ks, fmt.Sprintf("%s=%d", k, n))
+		}
+		sort.Strings(ks)
+		fmt.Printf("violation groups by kind: %s\n", strings.Join(ks, " "))
+	}
 	// evidence
 	cov := map[string]interface{}{}
 	for k, v := range counts {
@@ -521,9 +544,9 @@ func Drive(id, tier string, seed uint64, replayFile string) int {
 		ev["assumptions"] = a.Assumptions()
 	}
 	if replayFile == "" {
-		os.MkdirAll(filepath.Join(root, "evidence"), 0o755)
+		os.MkdirAll(evidenceDir, 0o755)
 		b, _ := json.MarshalIndent(ev, "", " ")
-		os.WriteFile(filepath.Join(root, "evidence", id+".json"), append(b, '\n'), 0o644)
+		os.WriteFile(filepath.Join(evidenceDir, id+".json"), append(b, '\n'), 0o644)
 	}
 	fmt.Printf("%s %s seed=%d: cases=%d conclusive=%d inconclusive=%d evaluations=%v distinct_nontrivial=%d violations=%d known=%d wall=%.1fs\n",
 		id, tier, seed, len(cases), conclusive, inconclusive, cov["evaluations"], len(nt), nviol, len(knownHit), time.Since(t0).Seconds())
